@@ -34,7 +34,9 @@ Proof.
     + intros H. split; [exact H|reflexivity].
     + destruct (v <? 0) eqn:Hv; cbn [fst snd pr_err pr_digest].
       * intros _. split; [lia|reflexivity].
-      * destruct (pr_digest st) eqn:Hd; cbn [fst snd pr_err pr_digest]; intros _; (split; [lia|]); congruence.
+      * destruct (2147483647 <? v) eqn:Hbig; cbn [fst snd pr_err pr_digest].
+        { intros _. split; [lia|reflexivity]. }
+        destruct (pr_digest st) eqn:Hd; cbn [fst snd pr_err pr_digest]; intros _; (split; [lia|]); congruence.
   - destruct (0 <? pr_err st)%N eqn:He; cbn [fst snd accepted_digest].
     + intros H. split; [exact H|reflexivity].
     + destruct (v <? 0) eqn:Hv; cbn [fst snd pr_err pr_digest]; intros _; (split; [lia|reflexivity]).
